@@ -213,7 +213,7 @@ class ComputeZ(Contract):
 @contract(F + "::QuantileLinearRegression.fit", "C05")
 class Fit(Contract):
     variants = [(False, "real"), (True, "real"), (False, "int")]      # sample weights given or not; features stored as floats or as integers
-    loop_kinds = {0: {"lastE": "real", "beta": ("nd", 1), "epsilon": ("nd", 1), "E": "real"}}
+    loop_kinds = {0: {"*none*": "real", "lastE": "real", "beta": ("nd", 1), "epsilon": ("nd", 1), "E": "real"}}
 
     def setup(self, E, v):
         has_w, xkind = v
